@@ -46,7 +46,7 @@ check('C19', 'exploration',
 check('C01', 'exploration',
       "sio<->sio worlds over real loopback TCP: every emission carries a unique id and one argument of a registry shape (ints, floats, unicode strings, structs/maps/slices with sio.Binary "
       "leaves) at sizes across the 126/32 KiB/64 KiB frame boundaries up to ~1 MB, over polling, websocket and polling->websocket, recovery off/on, both directions, 1..3 clients, 1/4/16 "
-      "emitting goroutines (in 'across-connect' cells the client's emitters start before Connect()); two typed recording handlers per event name and decoy handlers on look-alike event names; offline multiset oracle (lost / duplicate / corrupted / misdelivered) and "
+      "emitting goroutines (in 'across-connect' cells the client's emitters start before Connect()); in the mixed-shapes cells every emission takes one of the public routes {Emit, Timeout(d).Emit, and server side Namespace.To(own room).Emit / Compress(true) / Local().In(own room) through the adapter (with recovery on these carry an offset the client strips)}; per event name two typed recording handlers, a third On handler, a Once handler registered before any event (exactly one call if any event arrived) and an On handler registered while the first event is being dispatched, plus decoy handlers on look-alike event names; offline multiset oracle (lost / duplicate / corrupted / misdelivered) and "
       "'no lifecycle callback in a fault-free run'. Thorough adds volume and a pass under the race detector.",
       "Loss is concluded 30 s after an acked wire fence; events are emitted only after the connection handler has registered the handlers; generic any-typed handlers are excluded (C09 known finding).",
       "unique-id event log + multiset/digest oracle over real client/server worlds", "DESIGN.md §3 C01")
@@ -64,7 +64,8 @@ check('C03', 'exploration',
       "0/2 attachments, responder calling its ack function once / twice / twice concurrently, all trials of a direction outstanding at once; per-emission callback counter and reply-token "
       "oracle (at most once; exactly once with a timeout, decided at timeout+10 s; reply token or ErrAckTimeout with zero values); wire-level ACK count per id through a raw peer; "
       "big replies (~600 KB, slow to decode) timed into the race band one at a time after measuring their round trip; "
-      "offline (never connected) timeouts with 0..3 attachments followed by connect, probe round trip and server-side 'purged event not seen / no error / no disconnect'; link cut mid-flight (also with reconnection and new ack-carrying emits while the old timers still run).",
+      "offline (never connected) timeouts with 0..3 attachments followed by connect, probe round trip and server-side 'purged event not seen / no error / no disconnect'; link cut mid-flight (also with reconnection and new ack-carrying emits while the old timers still run); timed emits that also carry the volatile flag, offline and after a disconnection (nothing is sent, the timer answers once); "
+      "the client's retry queue (ClientSocketConfig.Retries 1..3 + AckTimeout): prompt server, first reply late inside / outside the time-out, link cut while the head is pending so that a superseded try's timer or reply arrives after the packet was settled, a second packet held in flight at that moment: caller's ack function at most once / exactly once / right reply / success only if the server received it, first receipts in emission order.",
       "No outcome is prescribed inside the race band; a late reply reported to error handlers ('ACK with ID n not found') is not counted as a violation.",
       "callback-count + reply-token monitor over timing sweeps; wire observer; post-condition probes", "DESIGN.md §3 C03")
 
@@ -97,7 +98,7 @@ check('C11', 'exploration',
       "WebTransport frames of every encoded length 0..70000 (thorough: exhaustive; quick: 0..300, boundaries and a stride) read back through the server-side limitedReader path and the client path, "
       "whole and chunked; real bytes vs an independent v4 reference codec both ways; EncodedLen/EncodedPayloadsLen/length prefix vs bytes really written; limits {16,4096,1e6,0}; random and mutated "
       "byte strings through every decoder under recover(); child process (GOGC=off, RLIMIT_AS) measuring the TotalAlloc delta of one read for headers announcing up to 2^64-1 bytes.",
-      "Reference codec written from the Engine.IO v4 text; TotalAlloc on a single goroutine as allocation measure with an honest-frame control; only the framer on io.Reader/io.Writer is exercised, not QUIC.",
+      "Reference codec written from the Engine.IO v4 text; TotalAlloc on a single goroutine as allocation measure with an honest-frame control; the end-to-end part opens real WebTransport sessions (HTTP/3 over QUIC on loopback UDP, webtransport-go dialer + reference framer, not the repository's client): frames around the three length forms within MaxBufferSize must reach OnPacket and be echoed intact in order, frames announcing more than MaxBufferSize (written in pieces below the limit) must never be delivered.",
       "differential testing vs independent reference codec; exhaustive length enumeration; fuzzing under recover(); child-process allocation monitor", "DESIGN.md §3 C11")
 
 check('C07', 'fault_enumeration',
@@ -156,7 +157,7 @@ check('C15', 'fault_enumeration',
       "independent raw Engine.IO/Socket.IO server behind a killable listener, enumerating outage kind {connection refused, accept+reset, HTTP 503, accept+stall-then-heal} x pattern {down for good, down at first "
       "connect, down for j failures then restored, flapping} x ReconnectionAttempts 0..5 x jitter x transports: exact event counts (attempts == limit, reconnect_failed once, nothing afterwards), announced delays "
       "against min(max, min*2^n*(1+-j)), cumulative lower and per-gap upper clock brackets; offline emits (non-volatile / volatile / ack-carrying, 1..3 namespaces) issued at stable offline points and observed on "
-      "the raw server's wire with a delayed CONNECT reply: exactly once, in order, after the namespace was accepted, volatile never; forced window H5; hot emitters (1..8 goroutines emitting without pause through the connect: per goroutine the wire must read 0,1,2,... and nothing may stay stuck); ack-carrying binary emits whose timeout expires offline.",
+      "the raw server's wire with a delayed CONNECT reply: exactly once, in order, after the namespace was accepted, volatile never; forced window H5; hot emitters (1..8 goroutines emitting without pause through the connect: per goroutine the wire must read 0,1,2,... and nothing may stay stuck); ack-carrying binary emits whose timeout expires offline; user stop/restart in the middle of a reconnection series (Socket.Disconnect+Connect / Manager.Close+Open after 1..3 failed attempts, server still away): the restarted client keeps attempting and connects after the restore.",
       "Lifecycle handlers run asynchronously, so only counts, cumulative lower bounds from a synchronous start stamp and canary-gated upper bounds are verdicts; 'never reconnected' only >= 15 s after restore with attempts stopped.",
       "fault-pattern enumeration over a killable-listener rig; event-count and wire-log monitors; reference back-off model; jitter canary; hook H5", "DESIGN.md §3 C15")
 
@@ -164,7 +165,7 @@ check('C05', 'exploration',
       "Go programs: namespace sets of size 1..4 drawn from 11 look-alike names (prefixes of one another, digits, spaces, unicode, '?'), multiplexed on one Manager or on separate Managers, CONNECT reply order permuted "
       "by per-namespace middleware delays, 40 interleaved steps {emit c->s, emit s->c, acks both ways, namespace broadcast} with every payload tagged by its namespace, concurrent bursts on all namespaces from both sides, then a single-namespace disconnect and probe "
       "round trips on all the others; oracle: set membership on the recorded log (a handler / ack / broadcast recorder of X only ever sees payloads tagged X). Raw protocol peer: 8 kinds of packets for namespaces "
-      "that are not joined or whose CONNECT is parked in a middleware must close the connection without any handler running; leaving and re-joining one namespace in a single payload must not hurt a neighbour; a connection whose CONNECT for a namespace was rejected after a middleware's Join receives nothing of that namespace; an event sent right after the CONNECT reply must be served (unforced and with hook H4 "
+      "that are not joined or whose CONNECT is parked in a middleware must close the connection without any handler running; leaving and re-joining one namespace in a single payload must not hurt a neighbour; a connection whose CONNECT for a namespace was rejected after a middleware's Join receives nothing of that namespace; a namespace ending (refused by a middleware, disconnected by the client, disconnected by the server) while the CONNECT of another namespace on the same Manager is still parked in a slow middleware leaves that namespace alone: it connects, a probe round-trips, no disconnect event; an event sent right after the CONNECT reply must be served (unforced and with hook H4 "
       "widening the admission window).",
       "The Go client normalises '' to '/', so that pair is exercised through the raw peer only.",
       "tagged-payload membership oracle over generated programs; raw wire peer for invalid-state packets; hook-widened admission window", "DESIGN.md §3 C05")
